@@ -6,6 +6,7 @@ from .. import core, gen
 
 ID = 'C05'
 LEVEL = 'proof'
+FOUNDATIONS = ['harness.foundation.cscalar']   # tie of the intersection formula of dist_transform to C05.sInt (generated from its text)
 RULE = ('corpus (design-phase witnesses); exhaustive scope: every boolean image of shape 3x4, 2x2x3 and the smaller '
         'grids (thorough: all; quick: a seeded slice); random 1-4 D boolean/integer images x 7 layouts x both metrics: '
         'strongly elongated shapes (1xn, nx1x1, 1x1xn, n), single background pixels in corners, sparse/dense background, '
